@@ -9,6 +9,7 @@ class Env:
     def __init__(self):
         self.tables = []
         self.subs = []
+        self.terms = []
 
 
 def _mods():
@@ -67,6 +68,8 @@ def b(spec, env):
         return env.tables[a[0]]
     if tag == "s":
         return env.subs[a[0]]
+    if tag == "x":                      # a term object shared between several places of the statement
+        return env.terms[a[0]]
     if tag == "table":
         name, schema, alias = a[0], a[1], a[2]
         if isinstance(schema, list) and schema and schema[0] in ("schema", "database") and len(schema) == 3:
@@ -349,6 +352,8 @@ def build_case(case):
         env.tables.append(b(t, env))
     for s in case.get("subs", []):
         env.subs.append(b(s, env))
+    for t in case.get("terms", []):
+        env.terms.append(b(t, env))
     objs = [b(case["obj"], env)]
     for o in case.get("others", []):
         objs.append(b(o, env))
